@@ -144,11 +144,10 @@ fn observe(k: usize, c: &Value, text: &str, o: &run::Outcome, krate: &rsproj::RC
 }
 
 fn module(md: &str, flip: bool, body: &str) -> String {
+    // the two words of the clause are separate lexical items: on odd batches they are written on two lines
     let clause = match md {
-        "EXPLICIT" => "EXPLICIT TAGS ",
-        "IMPLICIT" => "IMPLICIT TAGS ",
-        "AUTOMATIC" => "AUTOMATIC TAGS ",
-        _ => "",
+        "EXPLICIT" | "IMPLICIT" | "AUTOMATIC" => format!("{md}{}TAGS ", if flip { "\n      " } else { " " }),
+        _ => String::new(),
     };
     // module names: their alphabetical order (= generation order) is reversed on odd batches
     let idx = ["EXPLICIT", "IMPLICIT", "AUTOMATIC", "NONE"].iter().position(|m| *m == md).unwrap();
